@@ -42,7 +42,8 @@ def dec(n):
 @st.composite
 def case(draw):
     n = draw(st.integers(1, 3))
-    names = ['x', 'y', 'z'][:n]
+    # (T and K differ from the excluded time axes t and k by case only: they are ordinary variables)
+    names = draw(st.sampled_from([['x', 'y', 'z'], ['T', 'K', 'Y'], ['K', 'x', 'T'], ['x', 'y', 'z']]))[:n]
     kind = draw(st.sampled_from(['stable', 'drift-neg', 'drift-pos', 'stable', 'unstable', 'oscillate', 'rotation',
                                  'stable-neg']))
     A = [[0] * n for _ in range(n)]      # hundredths
@@ -189,7 +190,7 @@ def tight_case(draw):
     the tolerance so that values sit just inside / outside the near-zero and relative thresholds.
     """
     n = draw(st.integers(1, 2))
-    names = ['x', 'y'][:n]
+    names = draw(st.sampled_from([['x', 'y'], ['T', 'K'], ['K', 'x'], ['x', 'y']]))[:n]
     tol = draw(st.sampled_from(['1e-2', '1e-3', '1e-4', '5e-2', '1e-5']))
     T = float(tol)
     kind = draw(st.sampled_from(['flip', 'flip', 'slow-decay', 'drift', 'rotation', 'stable', 'trend']))
